@@ -85,6 +85,32 @@ VH_AREA(flow) {
         }
         std::map<uint32_t, uint32_t> to_compact;
         c = compact_circuit(c, &to_compact);
+        if (a.replay.empty() && k % 16 == 5) {
+            // Many idle qubits: the solver's table gets more rows than one machine word of per-row flags.  The wide variant is only
+            // run through the implementation (sanitizers on; a batch must answer like single calls); the narrow circuit goes on
+            // to the Lean oracle below.
+            Circuit wide = c;
+            wide.safe_append_u("I", {(uint32_t)(33 + rng.below(8))});
+            size_t wq = wide.count_qubits();
+            std::vector<Flow<64>> fl;
+            for (size_t i = 0; i < 4; i++) fl.push_back(Flow<64>{random_pauli(rng, 1 + rng.below(wq), 0.2), random_pauli(rng, 1 + rng.below(wq), 0.2), {}, {}});
+            std::vector<Flow<64>> nonempty;
+            for (auto &f : fl)
+                if (!(f.input.ref().has_no_pauli_terms() && f.output.ref().has_no_pauli_terms())) nonempty.push_back(f);
+            try {
+                auto together = solve_for_flow_measurements<64>(wide, nonempty);
+                for (size_t i = 0; i < nonempty.size(); i++) {
+                    std::span<const Flow<64>> one(&nonempty[i], 1);
+                    auto alone = solve_for_flow_measurements<64>(wide, one);
+                    if (alone[0].has_value() != together[i].has_value())
+                        out_x("solve_for_flow_measurements answers differently in a batch than alone for " + nonempty[i].str() + " (wide circuit)");
+                }
+                st.hit("wide.solve_batches");
+            } catch (const std::invalid_argument &e) {
+                out_x(std::string("solve_for_flow_measurements threw on a wide circuit: ") + e.what());
+            }
+            st.hit("cases.wide");
+        }
         out_case(k, esc_line(c.str()));
         std::string w = wire_circuit(c);
         size_t nq = c.count_qubits();
@@ -105,6 +131,24 @@ VH_AREA(flow) {
             for (const auto &g : gens) o << " " << wire_flow(g);
             out_q(o.str(), "ok");
             st.hit("generators", gens.size());
+        }
+
+        // absolute measurement indices included by every observable (record targets only; an index listed twice cancels)
+        std::map<uint32_t, std::vector<int32_t>> obs_records;
+        {
+            uint64_t seen = 0;
+            c.for_each_operation([&](const CircuitInstruction &inst) {
+                if (inst.gate_type == GateType::OBSERVABLE_INCLUDE) {
+                    auto &v = obs_records[(uint32_t)inst.args[0]];
+                    for (auto t : inst.targets) {
+                        if (!t.is_measurement_record_target()) continue;
+                        int32_t m = (int32_t)((int64_t)seen + t.rec_offset());
+                        auto it = std::find(v.begin(), v.end(), m);
+                        if (it == v.end()) v.push_back(m);
+                        else v.erase(it);
+                    }
+                } else seen += inst.count_measurement_results();
+            });
         }
 
         // ---- candidate flows
@@ -134,10 +178,25 @@ VH_AREA(flow) {
                 st.hit("flows.beyond_circuit_qubits");
             }
             // observables whose definition only uses measurement records can be traded for those records
-            if (nobs > 0 && rng.chance(0.4)) {
-                f.observables.push_back((uint32_t)rng.below(nobs));
-                if (rng.chance(0.3)) f.observables.push_back((uint32_t)rng.below(nobs));
-                st.hit("flows.with_observables");
+            if (nobs > 0 && rng.chance(0.5)) {
+                // (flow objects reachable from the API list every observable at most once: Flow::canonicalize)
+                uint32_t o1 = (uint32_t)rng.below(nobs);
+                f.observables.push_back(o1);
+                bool traded = rng.chance(0.7);
+                if (traded) {
+                    // "1 -> obs[k] xor (the records obs k includes)" holds trivially when obs k has no Pauli targets
+                    for (auto m : obs_records[o1]) {
+                        auto it = std::find(f.measurements.begin(), f.measurements.end(), m);
+                        if (it == f.measurements.end()) f.measurements.push_back(m);
+                        else f.measurements.erase(it);
+                    }
+                }
+                if (rng.chance(0.2)) {
+                    uint32_t o2 = (uint32_t)rng.below(nobs);
+                    if (o2 != o1) f.observables.push_back(o2);
+                }
+                std::sort(f.observables.begin(), f.observables.end());
+                st.hit(traded ? "flows.with_observables.traded_for_records" : "flows.with_observables.added");
             }
             // negative measurement indices are the same measurements counted from the end
             for (auto &m : f.measurements) if (rng.chance(0.3)) m -= (int32_t)nm;
@@ -235,6 +294,11 @@ VH_AREA(flow) {
         if (!nonempty.empty()) {
             try {
                 auto sol = solve_for_flow_measurements<64>(c, nonempty);
+                for (size_t i = 0; i < nonempty.size(); i++) {
+                    std::span<const Flow<64>> one(&nonempty[i], 1);
+                    if (solve_for_flow_measurements<64>(c, one)[0].has_value() != sol[i].has_value())
+                        out_x("solve_for_flow_measurements answers differently in a batch than alone for " + nonempty[i].str());
+                }
                 size_t big = nq;
                 for (const auto &f : nonempty) big = std::max(big, std::max((size_t)f.input.num_qubits, (size_t)f.output.num_qubits));
                 for (size_t i = 0; i < nonempty.size(); i++) {
